@@ -17,3 +17,15 @@ Definition rx_replace_all (r : rx * bool) (text rep : bytes) : rs bytes :=
 
 (** [text.replace(needle, rep)] of bstr *)
 Definition bytes_replace (needle rep text : bytes) : bytes := replace_matches text (lit_matches needle text) rep.
+
+(** [re.find_iter(line)]: the matches as (start, end); an iterator over them held in a variable is the
+    list of those not yet taken ([next] takes the first, [last] the last) *)
+Definition mzz (p : nat * nat) : Z * Z := (Z.of_nat (fst p), Z.of_nat (snd p)).
+Definition rx_find_iter_z (r : rx * bool) (line : bytes) : list (Z * Z) :=
+  match rx_matches r line with
+  | Some ms => map mzz ms
+  | None => []
+  end.
+Definition last_error {A} (l : list A) : option A := hd_error (rev l).
+Definition trimk_eqb (a b : trimk) : bool :=
+  match a, b with TLeft, TLeft | TRight, TRight | TBoth, TBoth => true | _, _ => false end.
